@@ -201,6 +201,18 @@ fn c12_wildcard_only_node_merge() -> bool {
     matches!(r, Some(ZoneResult::Answer { rrs }) if rrs.len() == 1)
 }
 
+/// C16: joining a relative name to an origin must reject a result longer than 255 octets.
+fn c16_relative_join_over_255() -> bool {
+    let l63 = "a".repeat(63);
+    let origin = dn(&format!("{l63}.{l63}.{l63}."));
+    let rel = "b".repeat(62);
+    let r = DomainName::from_relative_dotted_string(&origin, &rel);
+    println!("input: origin of three 63-octet labels (193 octets), relative name of one 62-octet label: 256 octets in all");
+    println!("required: rejected (None)");
+    println!("observed: {}", if r.is_some() { "accepted" } else { "None" });
+    r.is_none()
+}
+
 /// C09 (answer section holds only records for the question name or its CNAME chain) / C10: a question beneath a delegation point of an
 /// authoritative zone, resolved without recursion (RD clear or authoritative-only mode), is a referral: the NS records of the
 /// delegation point are not records for the question name and must not be handed to the server as answer records.
@@ -263,6 +275,7 @@ fn main() {
         "c15_prune_after_reinsert" => c15_prune_after_reinsert(),
         "c09_referral_in_answer_section" => c09_referral_in_answer_section(),
         "c03_pointer_into_own_name" => c03_pointer_into_own_name(),
+        "c16_relative_join_over_255" => c16_relative_join_over_255(),
         "c12_wildcard_only_node_merge" => c12_wildcard_only_node_merge(),
         _ => {
             eprintln!("unknown witness `{w}`");
